@@ -1,5 +1,5 @@
 """C10  Allocation tallies are exact, per thread, and track the true peak."""
-from lib.facts import norm, place_fields, const_int, direct_place
+from lib.facts import norm, place_fields, const_int, direct_place, nophi
 from lib.paths import Explorer, call_sequences
 from .C09 import methods, IMPL
 
@@ -80,7 +80,7 @@ def r10_1(ctx, prog, crate):
             ctx.calls_examined += 1
             # receiver derives from try_current()
             r = b.prov.op_src(c.args[0])
-            ctx.check(any(s.kind == "call" and s.a.endswith("ThreadAllocInfo::try_current") for s in r), "R10.1",
+            ctx.check(any(s.kind == "call" and s.a.endswith("ThreadAllocInfo::try_current") for s in r) and nophi(r), "R10.1",
                       [m, "tally-receiver-is-current-thread"], "tally receiver does not come from try_current()", c.line())
             # guarded by Some(..) of try_current only: the dominating switches
             sizes = []
